@@ -50,6 +50,20 @@ package xmlenc
 //@ requires[cfg] el: encryptedKey != nil
 //@ requires[cfg] key: rsaKeyOK(key)
 //@ ensures[C11] keytype: err == nil ==> result != nil
+//@ -- an embedded certificate is parsed from the X509Certificate element's text, and the key is accepted only if that
+//@ -- certificate carries an RSA public key with the private key's modulus and exponent (C11: a certificate that does
+//@ -- not match the supplied private key is rejected - a non-RSA certificate can never match)
+//@ import big "math/big"
+//@ import pem "encoding/pem"
+//@ assert@call[C11] Text #1 (e *etree.Element) reads_embedded_certificate:
+//@    e == encryptedKey.FindElement("./KeyInfo/X509Data/X509Certificate")
+//@ assert@call[C11] ParseCertificate #1 (der []byte) uses certPEM *pem.Block parses_that_certificate:
+//@    certPEM != nil && sameSlice(der, certPEM.Bytes)
+//@ assert@return[C11] #last uses cert=cert? *x509.Certificate, certSeen=reached:cert bool, pubKey=pubKey? *rsa.PublicKey, pubSeen=reached:pubKey bool, rsaKey *rsa.PrivateKey certificate_matches_key:
+//@    encryptedKey.FindElement("./KeyInfo/X509Data/X509Certificate") != nil ==>
+//@    certSeen && pubSeen && cert != nil && pubKey != nil && isRSAPub(cert.PublicKey) && pubKey == cert.PublicKey.(*rsa.PublicKey) &&
+//@    BigEq(rsaKey.N, pubKey.N) && rsaKey.E == pubKey.E
+//@ go func isRSAPub(k interface{}) bool { _, ok := k.(*rsa.PublicKey); return ok }
 
 //@ contract (CBC).Decrypt
 //@ requires[cfg] el: ciphertextEl != nil
